@@ -17,12 +17,16 @@ sphere), the linear stage (imgcrd) against TLC's world table, header CD / CRPIX 
 """
 import itertools
 import math
+import os
 
 from lib import repo, tla
 
 SCALE = 1e-3
 CRVALS = [(10.0, 20.0), (359.9995, -45.0), (120.0, 89.99)]
 TOL_DEG = 1e-9
+# PIL-backed objects: how the bitmap got into the Image, and what the client called before the parity operation
+BACKINGS = ["from_pil-RGB", "from_pil-RGBA", "loader-L", "loader-png"]
+TOUCHES = ["nothing", "asarray", "dtype", "aspil", "shape"]
 
 CFG = """SPECIFICATION Spec
 CONSTANTS
@@ -36,9 +40,11 @@ INVARIANT WellFormed
 INVARIANT SkyUnchanged
 INVARIANT SamePicture
 INVARIANT SignTracksRows
+INVARIANT ViewsAgree
 INVARIANT Emit
 PROPERTY FlipOK
 PROPERTY EnsureOK
+PROPERTY TouchInvisible
 CHECK_DEADLOCK FALSE
 """
 
@@ -109,25 +115,45 @@ def _header_cd(wcs):
 
 def replay_case(args):
     """Returns (results, n_calls); results = list of (severity, key, message, case)."""
-    idx, rec = args
+    idx, rec, scratch = args
     repo.setup()
+    import contextlib
+    import io
+    import os
     import numpy as np
     from astropy.wcs import WCS
-    from toasty.image import Image, ImageDescription, ImageMode
+    from PIL import Image as PilImage
+    from toasty.image import Image, ImageDescription, ImageLoader, ImageMode
     o = rec["orig"]
     kind, w, h = o["kind"], o["w"], o["h"]
     cdelt, pc, p = o["cdelt"], o["pc"], o["p"]
     crval = CRVALS[idx % len(CRVALS)]
-    rgb = (idx % 4 == 1)
-    cls = "Image" if kind == "image" else "ImageDescription"
+    has_data = kind != "desc"
+    # what backs the pixel data, and what the client did with the object before the parity call
+    if kind == "image":
+        backing = "array-RGB" if idx % 4 == 1 else "array-F32"
+        touch = "nothing"
+    elif kind == "pil":
+        backing = BACKINGS[idx % len(BACKINGS)]
+        touch = TOUCHES[(idx // len(BACKINGS)) % len(TOUCHES)]
+    else:
+        backing, touch = "none", "nothing"
+    cls = "ImageDescription" if kind == "desc" else "Image"
     case = {"kind": cls, "width": w, "height": h, "CDELT": [c * SCALE for c in cdelt] if tuple(cdelt) != (1, 1) else [1, 1],
             "PC": pc if tuple(cdelt) != (1, 1) else None, "CD": [v * SCALE for v in rec["start"]["cd"]],
-            "CRPIX": [p[0] / 2.0, p[1] / 2.0], "CRVAL": list(crval), "data": "RGB" if rgb else "F32"}
+            "CRPIX": [p[0] / 2.0, p[1] / 2.0], "CRVAL": list(crval), "data": backing, "before_the_call": touch}
     res = []
     ncalls = 0
+    both_views = backing != "array-F32" and has_data          # aspil() exists for bitmaps only
 
     def bad(sev, op, what, msg):
         res.append((sev, "%s.%s:%s" % (cls, op, what), msg, case))
+
+    base = np.arange(h * w).reshape(h, w)                       # pixel number = y*w + x (< 251 for every size used)
+
+    def bitmap(planes):
+        chans = [base % 251, base // 251, np.full_like(base, 7), np.full_like(base, 255)][:planes]
+        return np.stack(chans, axis=2).astype(np.uint8)
 
     def build():
         wcs = WCS(naxis=2)
@@ -140,14 +166,41 @@ def replay_case(args):
             wcs.wcs.pc = np.array(pc, dtype=float).reshape(2, 2)
             wcs.wcs.cdelt = [cdelt[0] * SCALE, cdelt[1] * SCALE]
         wcs.wcs.set()
-        if kind == "image":
-            base = np.arange(h * w).reshape(h, w)
-            if rgb:
-                arr = np.stack([base % 251, (base // 251) % 251, np.full_like(base, 7)], axis=2).astype(np.uint8)
-            else:
-                arr = base.astype(np.float32)
-            return Image.from_array(arr, wcs=wcs), base
-        return ImageDescription(mode=ImageMode.F32, shape=(h, w), wcs=wcs), None
+        if backing == "array-F32":
+            obj = Image.from_array(base.astype(np.float32), wcs=wcs)
+        elif backing == "array-RGB":
+            obj = Image.from_array(bitmap(3), wcs=wcs)
+        elif backing == "from_pil-RGB":
+            obj = Image.from_pil(PilImage.fromarray(bitmap(3)), wcs=wcs)
+        elif backing == "from_pil-RGBA":
+            obj = Image.from_pil(PilImage.fromarray(bitmap(4)), wcs=wcs)
+        elif backing == "loader-L":
+            # an 8-bit greyscale bitmap goes through the loader (which standardises it to RGB); WCS attached as cli.py does
+            with contextlib.redirect_stdout(io.StringIO()):
+                obj = ImageLoader().load_pil(PilImage.fromarray(base.astype(np.uint8), mode="L"))
+            obj._wcs = wcs
+        elif backing == "loader-png":
+            obj = ImageLoader().load_path(os.path.join(scratch, "bitmap_%dx%d.png" % (w, h)))
+            obj._wcs = wcs
+        else:
+            return ImageDescription(mode=ImageMode.F32, shape=(h, w), wcs=wcs), None
+        if touch == "asarray":
+            obj.asarray()
+        elif touch == "dtype":
+            obj.dtype
+        elif touch == "aspil":
+            obj.aspil()
+        elif touch == "shape":
+            obj.shape, obj.height, obj.width
+        return obj, base
+
+    def ident_of(a):
+        a = np.asarray(a)
+        if a.ndim == 2:
+            return a.astype(int)
+        if backing == "loader-L":
+            return a[..., 0].astype(int)
+        return a[..., 0].astype(int) + 251 * a[..., 1].astype(int)
 
     xs, ys = np.meshgrid(np.arange(w), np.arange(h))
     pix = np.stack([xs.ravel(), ys.ravel()], axis=1).astype(float)          # 0-based, row-major: index = y*w + x
@@ -156,23 +209,34 @@ def replay_case(args):
         wcs = obj.wcs
         sky = wcs.wcs_pix2world(pix, 0)
         img = wcs.wcs.p2s(pix + 1.0, 1)["imgcrd"]          # (origin=0 would shift imgcrd too)
-        rows = None
-        if kind == "image":
-            a = obj.asarray()
-            ident = a[..., 0].astype(int) + 251 * a[..., 1].astype(int) if rgb else a.astype(int)
-            rows = ident                                                   # original pixel number stored at [y][x]
-        return {"sign": obj.get_parity_sign(), "sky": sky, "img": img, "ident": rows, "hdr": _header_cd(wcs),
-                "shape": tuple(obj.shape)}
+        ident = ident_pil = None
+        if has_data:
+            ident = ident_of(obj.asarray())                                # original pixel number stored at [y][x]
+            if both_views:
+                ident_pil = ident_of(obj.aspil())                          # ... as seen through the PIL view (what save() writes)
+        return {"sign": obj.get_parity_sign(), "sky": sky, "img": img, "ident": ident, "ident_pil": ident_pil,
+                "hdr": _header_cd(wcs), "shape": tuple(obj.shape)}
+
+    def stored_rows(ident):
+        return [int(r[0]) // w for r in ident]
 
     def world_ok(ob, table):
         exp = np.array(table, dtype=float).reshape(h * w, 2) * (SCALE / 2.0)
         return np.allclose(ob["img"], exp, rtol=1e-9, atol=1e-13)
 
-    def rows_ok(ob, rows):
-        if kind != "image":
+    def rows_ok(ob, rows, view="ident"):
+        if ob[view] is None:
             return True
         exp = np.array([[r * w + x for x in range(w)] for r in rows])
-        return ob["ident"].shape == exp.shape and bool((ob["ident"] == exp).all())
+        return ob[view].shape == exp.shape and bool((ob[view] == exp).all())
+
+    def pil_view_check(op, n, ob, snap):
+        """the PIL view (aspil(), what Image.save writes for png/jpg) must show the same rows as the array view"""
+        if not rows_ok(ob, snap["pil"], "ident_pil"):
+            bad("V", "flip_parity", "rows-aspil",
+                "after %s (call %d) of a %s image the rows seen through aspil() are %s (original row numbers), specified %s; asarray() shows %s"
+                % (op, n, backing, stored_rows(ob["ident_pil"]) if ob["ident_pil"].shape[:2] == (h, w) else ob["ident_pil"].shape,
+                   snap["pil"], stored_rows(ob["ident"])))
 
     def sky_follows_rows(ob, ob0, rows):
         """pixel stored in array row y is original row rows[y]: its sky position must be the original one."""
@@ -213,7 +277,8 @@ def replay_case(args):
                 bad("V", "flip_parity", "rows", "shape %s after flip_parity of a %dx%d image" % (ob["shape"], h, w))
             elif not rows_ok(ob, snap["rows"]):
                 bad("V", "flip_parity", "rows", "after flip_parity call %d the stored rows are %s (original row numbers), expected %s"
-                    % (n, [int(r[0]) // w for r in ob["ident"]], snap["rows"]))
+                    % (n, stored_rows(ob["ident"]), snap["rows"]))
+            pil_view_check("flip_parity", n, ob, snap)
             # world(x, y) before == world(x, h-1-y) after, every pixel, through the full projection
             src = np.array([(h - 1 - y) * w + x for y in range(h) for x in range(w)])
             sep = float(_sep_deg(ob["sky"], prev["sky"][src]).max())
@@ -235,9 +300,9 @@ def replay_case(args):
         snap = rec["ensure"]
         if ob1["sign"] != -1:
             bad("V", "ensure_negative_parity", "sign", "parity sign %+d after ensure_negative_parity (was %+d)" % (ob1["sign"], ob0["sign"]))
-        if kind == "image":
-            stored = [int(r[0]) // w for r in ob1["ident"]]
-            if not (rows_ok(ob1, mirror) or rows_ok(ob1, ident)):
+        if has_data:
+            stored = stored_rows(ob1["ident"]) if ob1["ident"].shape == (h, w) else None
+            if stored is None or not (rows_ok(ob1, mirror) or rows_ok(ob1, ident)):
                 bad("V", "ensure_negative_parity", "sky", "ensure_negative_parity scrambled the data: stored rows %s" % (stored,))
             else:
                 sep = sky_follows_rows(ob1, ob0, stored)
@@ -254,6 +319,8 @@ def replay_case(args):
             if not ((mirrored if want_flip else direct) <= TOL_DEG):
                 bad("V", "ensure_negative_parity", "sky", "ensure_negative_parity (start sign %+d): pixels moved on the sky (%.3g deg unflipped / %.3g deg mirrored)"
                     % (ob0["sign"], direct, mirrored))
+        if has_data:
+            pil_view_check("ensure_negative_parity", 1, ob1, snap)
         if not world_ok(ob1, rec["wensure"]):
             bad("D", "ensure_negative_parity", "world", "linear stage after ensure_negative_parity differs from the specified table")
         header_drift("ensure_negative_parity", ob1, snap)
@@ -263,11 +330,11 @@ def replay_case(args):
         same = (ob2["sign"] == ob1["sign"] and np.allclose(ob2["hdr"][0], ob1["hdr"][0], rtol=1e-12, atol=0)
                 and np.allclose(ob2["hdr"][1], ob1["hdr"][1], rtol=1e-12, atol=1e-12)
                 and float(_sep_deg(ob2["sky"], ob1["sky"]).max()) <= TOL_DEG
-                and (kind != "image" or bool((ob2["ident"] == ob1["ident"]).all())))
+                and (not has_data or bool((ob2["ident"] == ob1["ident"]).all())))
         if not same:
             bad("V", "ensure_negative_parity", "idempotent", "a second ensure_negative_parity changed the object again (sign %+d -> %+d, rows %s -> %s)"
-                % (ob1["sign"], ob2["sign"], None if kind != "image" else [int(r[0]) // w for r in ob1["ident"]],
-                   None if kind != "image" else [int(r[0]) // w for r in ob2["ident"]]))
+                % (ob1["sign"], ob2["sign"], None if not has_data else stored_rows(ob1["ident"]),
+                   None if not has_data else stored_rows(ob2["ident"])))
         if rec["ensure2"] != rec["ensure"]:
             return [("M", "spec", "spec's Ensure is not idempotent on %r" % (case,), case)], ncalls
     except Exception as e:  # noqa
@@ -283,7 +350,7 @@ def run(ctx):
                 "the harness (headers: all 48 non-singular matrices over {-1,0,1} in CD and in PC+CDELT form, exact rotations in both parities with isotropic / "
                 "anisotropic / RA-reversed scales, skews, seeded integer matrices); every case is replayed: flip, flip, and on a fresh "
                 "object ensure, ensure. distinct = distinct case; every case is non-trivial (non-singular WCS, >= 1 pixel)")
-    kinds = ["image", "desc"]
+    kinds = ["image", "pil", "desc"]
     if ctx.quick:
         hdrs = headers(ctx.rng, 16)
         widths, heights = [1, 3], [1, 2, 5]
@@ -302,8 +369,24 @@ def run(ctx):
     if len(recs) != n_expected:
         ctx.machinery("TLC emitted %d cases, expected %d" % (len(recs), n_expected))
     recs.sort(key=lambda q: (q["orig"]["kind"], q["orig"]["w"], q["orig"]["h"], q["orig"]["cdelt"], q["orig"]["pc"], q["orig"]["p"]))
+    # png files for the ImageLoader-backed objects (one per size; written before the pool starts)
+    import numpy as np
+    from PIL import Image as PilImage
+    bdir = ctx.mkdtemp("bitmaps")
+    for w in widths:
+        for h in heights:
+            b = np.arange(h * w).reshape(h, w)
+            arr = np.stack([b % 251, b // 251, np.full_like(b, 7)], axis=2).astype(np.uint8)
+            PilImage.fromarray(arr).save(os.path.join(bdir, "bitmap_%dx%d.png" % (w, h)))
     with mp.Pool(8) as pool:
-        results = pool.map(replay_case, list(enumerate(recs)), chunksize=32)
+        results = pool.map(replay_case, [(i, rec, bdir) for i, rec in enumerate(recs)], chunksize=32)
+    combos = set()
+    for i, rec in enumerate(recs):
+        if rec["orig"]["kind"] == "pil" and rec["orig"]["h"] > 1:
+            combos.add((BACKINGS[i % len(BACKINGS)], TOUCHES[(i // len(BACKINGS)) % len(TOUCHES)], rec["start"]["sign"]))
+    ctx.note("pil_backing_x_pretouch_x_startsign_combinations_with_h_gt_1", len(combos))
+    if len(combos) != len(BACKINGS) * len(TOUCHES) * 2:
+        ctx.machinery("only %d of %d (backing, pre-touch, starting sign) combinations were exercised" % (len(combos), len(BACKINGS) * len(TOUCHES) * 2))
     for (res, ncalls), rec in zip(results, recs):
         ctx.count(ncalls)
         ctx.trace_ok()
